@@ -54,14 +54,14 @@ def run(prop, tier, verdict):
     if not os.path.exists(exp):
         raise Broken('Hub.tla exported nothing: ' + rg['out'][-1500:])
     scen = [json.loads(l) for l in open(exp) if l.strip()]
-    if len(scen) < 1000:
+    if len(scen) < 5000:
         raise Broken('Hub.tla exported only %d transitions' % len(scen))
     total = len(scen)
     exhaustive = True
     if tier != 'thorough':
         rnd = random.Random(seedv)
         long_ = [s for s in scen if len(s['steps']) >= 3]
-        scen = [s for s in scen if len(s['steps']) < 3] + rnd.sample(long_, min(500, len(long_)))
+        scen = [s for s in scen if len(s['steps']) < 3] + rnd.sample(long_, min(700, len(long_)))
         exhaustive = False
     for i, s in enumerate(scen):
         s['id'] = 'hub%d' % i
@@ -72,7 +72,7 @@ def run(prop, tier, verdict):
         raise Broken('Hub.tla: no counterexample on the unrepaired design')
     steps = []
     for h in hist:
-        steps.append({'op': h['op'], 's': h['s'], 'u': h['u'],
+        steps.append({'op': h['op'], 's': h['s'], 'u': h['u'], 'quiet': h['quiet'],
                       'index': [list(p) for p in h['index']['__set__']], 'live': h['live']['__set__']})
     scen.insert(0, {'id': 'dir_takeover', 'steps': steps})
     scfile = os.path.join(wd, 'scen.ndjson')
